@@ -79,6 +79,11 @@ def basis_part(rep, rng, runq, todo, quick):
                 if abs(wb - wg) > 1e-8 * sc * sc:
                     bad.append(f"rescaling weight from coefficients {wb!r} differs from the evaluated curves {wg!r}")
                 if n >= 2:
+                    cbraw = np.asarray(bd.covariance().to_grid().values)[0]
+                    for (s_, t_) in ((0, len(t) - 1), (len(t) // 2, len(t) // 3)):
+                        tq = runq.add(f"qclose {C.qlit(1e-9 * sc * sc)} (cov_coef_at opsQ {K}%nat {C.qmat(Phi)} {C.qmat(coef)} "
+                                      f"{s_}%nat {t_}%nat) {C.qlit(cbraw[s_, t_])}")
+                        todo.append((tq, "covariance from coefficients = phi(s)^T (Cc^T Cc / n) phi(t)", key, opts))
                     cb = np.asarray(bd.covariance().to_grid().values)[0] * n / (n - 1)
                     cg = np.asarray(dgrid.covariance().values)[0]
                     if np.max(np.abs(cb - cg)) > 1e-8 * sc * sc:
